@@ -193,6 +193,15 @@ class HeapExec(Exec):
     def need_node(self, obj, p, what):
         if obj.k != "ref":
             raise Unsupported("%s on %r" % (what, obj))
+        if getattr(self.spec, "nonnode_raises", False):
+            # the contract puts arguments that are not tree nodes in scope (LightNodeMixin has no type check of its own): the first
+            # use of such an object as a node raises AttributeError (assumption: it has none of the node protocol's attributes)
+            bad = Or(obj.t == NONE, Not(isn(obj.t)))
+            if feasible(p.pc, bad):
+                r = p.fork(bad, "not-a-node:%s" % what)
+                self.raise_(r, Exc("AttributeError", "attr:%s" % what, None))
+            p.assume(obj.t != NONE, isn(obj.t))
+            return
         self.oblig(p, "SAFE", "node:%s" % what, And(obj.t != NONE, isn(obj.t)),
                    note="attribute access needs a tree node (no AttributeError)")
         p.assume(obj.t != NONE, isn(obj.t))
@@ -811,7 +820,9 @@ class HeapExec(Exec):
             if o.kind == "return":
                 outs.append((q, res))
             else:
-                site = o.site or label
+                # a callee outcome's site is a semantic label (e.g. "hook:_pre_detach") that travels up with the exception; a site
+                # *pattern* ("explicit*", "call:*") only classifies the callee's own raise statements - seen from here it is a call
+                site = label if (o.site is None or o.site.endswith("*")) else o.site
                 if p.cur_exc is not None:
                     site = "in-handler:" + site
                 self.raise_(q, Exc(o.exc, site, res))
